@@ -191,6 +191,8 @@ def instances(tier):
             out.append(dict(id="whole-step-%s-dof%d" % (nm, dof), kind="whole", cls=nm, dof=dof, budget=b))
     out.append(dict(id="mask-constructor", kind="mask_ctor", cls="SymplecticEulerSolver", budget=b))
     out.append(dict(id="mask-set_kick_vars", kind="mask_ode", cls="SymplecticEulerSolver", budget=b))
+    for nm in (("SymplecticEulerSolver",) if quick else ("SymplecticEulerSolver", "ABAs5o6HSolver")):
+        out.append(dict(id="mask-default-after-custom-%s" % nm, kind="mask_default_after_custom", cls=nm, budget=b))
     for nm in ("GaussLegendre4", "GaussLegendre6", "ImplicitMidpoint"):
         out.append(dict(id="tableau-%s" % nm, kind="tableau", cls=nm, budget=b))
         out.append(dict(id="rotation-step-%s" % nm, kind="rotation", cls=nm, budget=b))
@@ -279,6 +281,9 @@ def scenario(c, inst):
         return
     if kind in ("mask_ctor", "mask_ode"):
         _masks(c, inst)
+        return
+    if kind == "mask_default_after_custom":
+        _mask_default_after_custom(c, inst)
         return
     if kind == "tableau":
         _tableau(c, inst)
@@ -381,6 +386,46 @@ def _reverse(c, inst):
                 if st == "ok":
                     c.check("c10.step_map_does_not_depend_on_integrator_history", c.all([c.eq(u, v, scale) for u, v in zip(flat(c, r[1][1]), flat(c, dY))]),
                             info=dict(cls=inst["cls"], round_trip=trip))
+
+
+def _mask_default_after_custom(c, inst):
+    """another integrator of the same state shape was built with an interleaved user mask first (directly and through
+    OdeSystem.set_kick_vars): a default-mask integrator created afterwards must still split [q0, q1 | p0, p1]"""
+    import desolver as de
+    cls = _cls(inst["cls"])
+    n = 4
+    custom = [False, True, False, True]
+    default = [False, False, True, True]
+    t, h = c.real("t"), c.real("h")
+    c.assume(h != 0)
+    st, other = run(_mk, c, cls, n, staggered_mask=np.array(custom))
+    c.check("c10.mask.constructor_accepts_a_mask", st == "ok", info=repr(other)[:200])
+
+    def rhs0(t_, y_, **kw):
+        return 0 * y_
+    a = de.OdeSystem(rhs0, y0=c.array([c.real("a%d" % i) for i in range(n)]), t=(0, 1), dt=0.5)
+    a.method = cls
+    run(a.set_kick_vars, np.array(custom))
+    st, integ = run(_mk, c, cls, n)
+    if st != "ok":
+        c.check("c10.mask.default_constructs", False, info=repr(integ)[:200])
+        return
+    c.case()
+    got = [bool(x) for x in np.asarray(integ.staggered_mask).reshape(-1)]
+    c.check("c10.mask.default_mask_is_second_half_whatever_was_built_before", got == default, info=dict(got=got, want=default))
+    rhs = SeparableDualRhs(c, default)
+    y0 = _state(c, n)
+    st, r = run(integ, rhs, t, y0, {}, h)
+    if st != "ok":
+        c.check("c10.mask.step_runs", False, info=repr(r))
+        return
+    _, (dT, dY) = r
+    y1 = [Dual.lift(a_, n) + Dual.lift(b_, n) for a_, b_ in zip(list(y0), list(dY))]
+    defect = _symplectic_defect(_grad_matrix(y1), _J(n, default))
+    c.check("c10.mask.default_step_after_custom_mask_is_symplectic", c.all([_zero(c, x) for x in defect]))
+    # and the earlier integrator keeps its own mask
+    got_o = [bool(x) for x in np.asarray(other.staggered_mask).reshape(-1)] if other is not None and hasattr(other, "staggered_mask") else None
+    c.check("c10.mask.custom_mask_integrator_unchanged", got_o == custom, info=dict(got=got_o))
 
 
 def _masks(c, inst):
